@@ -9,6 +9,8 @@ CONSTANTS
  EncMaxLen = 0
  MaxLen = 270000
  MaxOps = 3
+ TmpPaths = {"p", "q"}
+ QueryKinds = {}
  KeepHist = TRUE
 VIEW View
 ACTION_CONSTRAINT Emit
